@@ -86,6 +86,10 @@ def to_recipe(shape, counter, marks):
     if shape == 'L':
         counter[1] += 1
         r = ['int', counter[1]] if counter[1] % 2 else ['str', 's%d' % counter[1]]
+        if counter[1] % 7 == 3:
+            # a value that the bundled printers already show with a note of their own ("print  # built-in function"): a user comment on it
+            # replaces that note, without one the note is the only comment
+            r = ['ident', ['print', 'deque', 'len', 'OrderedDict'][(counter[1] // 7) % 4]]
         kind = 'leaf'
     else:
         k, ch = shape
@@ -156,7 +160,11 @@ def attached(r, out):
             inner = inner[1]
         empty = inner[0] in ('list', 'tuple', 'set', 'frozenset', 'dict') and not inner[1]
         out.append(('c' if k == 'comment' else 't', r[2], inner[0], empty))
+        if inner[0] == 'ident' and r[1][0] == 'ident':
+            return out          # the user's comment stands in place of the printer's own note
         attached(r[1], out)
+    elif k == 'ident':
+        out.append(('c', V.IDENT_NOTES[r[1]], 'ident', False))
     elif k in ('list', 'tuple', 'set', 'frozenset'):
         for c in r[1]:
             attached(c, out)
@@ -173,7 +181,7 @@ def attached(r, out):
 
 
 ENVB = V.BuildEnv({'NT': NT, 'UT': UT})
-NS = {'vlib': __import__('vlib')}
+NS = {'vlib': __import__('vlib'), 'collections': __import__('collections')}
 
 
 # ---------------------------------------------------------------- oracle
